@@ -2,7 +2,7 @@
    This file contains only property theorems, each closed by `exact <lemma>` and followed by
    Print Assumptions.  Statements not (yet) proved are kept visible as Definitions C07_full_*. *)
 From SV Require Import Model.Rows Model.SplitArray Model.Chunk Model.Rechunker
-     Proof.SplitArrayProof Proof.ChunkProof Proof.RechunkerProof.
+     Model.Merge Proof.SplitArrayProof Proof.ChunkProof Proof.RechunkerProof Proof.MergeProof.
 
 (* split_array: refuses exactly when a row straddles; with early splitting returns the latest
    admissible earlier time; every row entirely on one side; rows preserved in order *)
@@ -45,6 +45,25 @@ Theorem C07_cuts_straddle_nothing : forall out s e,
     ~ exists q, In q (flat_map crows out) /\ straddles q (cend c).
 Proof. exact chain_no_straddle. Qed.
 Print Assumptions C07_cuts_straddle_nothing.
+
+(* same-kind merge accepts exactly: equal kind, run id, length and (start, end) *)
+Theorem C07_merge_accepts_iff : forall cs dt,
+  (2 <= length cs)%nat ->
+  ((exists c, merge cs dt = Ok c) <->
+   (uniform kkind cs /\ uniform krun cs /\ uniform klen cs /\ uniform kstart cs /\ uniform kend cs)).
+Proof. exact merge_accepts_iff. Qed.
+Print Assumptions C07_merge_accepts_iff.
+
+(* the merged columns are the union of the inputs' columns (each once); on a collision the last input
+   (depends_on order) wins *)
+Theorem C07_merge_columns : forall cs dt c,
+  (2 <= length cs)%nat -> merge cs dt = Ok c ->
+  NoDup (fields (kdata c)) /\
+  (forall f, In f (fields (kdata c)) <-> exists d, In d cs /\ In f (fields (kdata d))) /\
+  (forall f pre d post col, cs = pre ++ d :: post -> lookup f (kdata d) = Some col ->
+      (forall b, In b post -> lookup f (kdata b) = None) -> lookup f (kdata c) = Some col).
+Proof. exact merge_columns. Qed.
+Print Assumptions C07_merge_columns.
 
 (* Full statements still to be proved (covered by correspondence only for now): *)
 Definition C07_full_concatenate_accepts_iff : Prop :=
